@@ -6,7 +6,7 @@ func newVisited() visitedComponent {
 		schema:   make(map[*Schema]struct{}),
 		callback: make(map[*Callback]struct{}),
 
-		operationInProgress: make(map[*Operation]struct{}),
+		operationInProgress: make(map[*Operation]string),
 	}
 }
 
@@ -15,8 +15,9 @@ type visitedComponent struct {
 	schema   map[*Schema]struct{}
 	callback map[*Callback]struct{}
 
-	// operations whose callbacks are being walked
-	operationInProgress map[*Operation]struct{}
+	// operations whose callbacks are being walked, with the reference of the root
+	// path they are inlined at ("" inside a callback)
+	operationInProgress map[*Operation]string
 }
 
 // resetVisited clears visitedComponent map
